@@ -1337,6 +1337,24 @@ where
     spatial_index: Option<HashGridIndex<K::Scalar, D>>,
 }
 
+impl<K, U, V, const D: usize> DelaunayTriangulation<K, U, V, D>
+where
+    K: Kernel<D>,
+    U: DataType,
+    V: DataType,
+{
+    /// Mutable access for the Edit API (bistellar flips).
+    ///
+    /// Like [`as_triangulation_mut`](Self::as_triangulation_mut), this drops the locate hint and
+    /// the duplicate-detection index: an edit changes cells (and, for k=1 moves, the vertex set)
+    /// behind their back.
+    pub(crate) fn triangulation_mut_for_edit(&mut self) -> &mut Triangulation<K, U, V, D> {
+        self.insertion_state.last_inserted_cell = None;
+        self.spatial_index = None;
+        &mut self.tri
+    }
+}
+
 // Most common case: f64 with FastKernel, no vertex or cell data
 impl<const D: usize> DelaunayTriangulation<FastKernel<f64>, (), (), D> {
     /// Create a Delaunay triangulation from vertices with no data (most common case).
